@@ -1,0 +1,13 @@
+//go:build verif
+
+package server
+
+import "github.com/bmeg/grip/jobstorage"
+
+// VerifInitJobStorage attaches a file-system job storage rooted at dir to the
+// server. Outside of this hook the job storage is created inside Serve, after
+// the network listeners are opened; the verification harness drives the job
+// handlers in process, without listeners.
+func (server *GripServer) VerifInitJobStorage(dir string) {
+	server.jStorage = jobstorage.NewFSJobStorage(dir)
+}
